@@ -63,6 +63,7 @@ const (
 	sigSnapshot    = "stream:snapshot-differs-from-direct-query"
 	sigConnectLeak = "catalog-events:no-connect-deregister-when-instance-stops-being-connect-native"
 	sigRenameOrder = "catalog-events:deregister-of-renamed-instance-ordered-after-node-reregistration"
+	sigLocalResume = "stream:subscribe-resumes-on-pre-restore-topic-buffer"
 )
 
 // ---------------------------------------------------------------- canonical forms
@@ -204,6 +205,15 @@ type client struct {
 	mustClose     string // "" | acl | force
 	stale         bool   // a pre-subscription event was delivered and the view has not caught up yet
 	staleSig      string
+	staleUntil    uint64 // the queued batches that cause the staleness end at this version
+	preRestore    bool   // the materializer holds a view of commits that a restore discarded
+	snapQ         int    // batches queued when the snapshot this subscription started from was TAKEN
+	snapVer       uint64 // store version at that moment (a cached snapshot is older than the subscription)
+}
+
+type gap struct {
+	lo, hi uint64 // (lo, hi]
+	epoch  int    // the restore that discarded it
 }
 
 type pending struct {
@@ -222,11 +232,16 @@ type world struct {
 	snaps   map[uint64][]byte
 	queue   []pending // mirror of publishCh (harness bookkeeping only)
 	epoch   int       // number of restores so far
-	gapLo   uint64    // (gapLo, gapHi] = commit indexes that the last restore discarded
-	gapHi   uint64
-	ops     []string // replay of the current schedule
+	gaps    []gap     // commit index ranges discarded by restores (indexes are never reused)
+	ops     []string  // replay of the current schedule
 	tags    map[string]bool
 	poison  map[string]map[string]string // key -> id -> signature (see flagWrite)
+	cached  map[string]snapInfo          // key -> when the currently cached snapshot was taken
+}
+
+type snapInfo struct {
+	q   int
+	ver uint64
 }
 
 func newWorld(run *hx.Run, ttl bool) *world {
@@ -235,7 +250,7 @@ func newWorld(run *hx.Run, ttl bool) *world {
 		d = time.Hour
 	}
 	pub := stream.NewEventPublisher(d)
-	w := &world{run: run, pub: pub, clients: map[int]*client{}, dumps: map[uint64]map[string]qres{}, snaps: map[uint64][]byte{}, tags: map[string]bool{}, poison: map[string]map[string]string{}}
+	w := &world{run: run, pub: pub, clients: map[int]*client{}, dumps: map[uint64]map[string]qres{}, snaps: map[uint64][]byte{}, tags: map[string]bool{}, poison: map[string]map[string]string{}, cached: map[string]snapInfo{}}
 	backend, err := raftstorage.NewBackend(nil, hclog.NewNullLogger())
 	if err != nil {
 		panic(err)
@@ -460,9 +475,26 @@ func (w *world) opSub(id int) (string, string) {
 		return op, "busy"
 	}
 	index := c.cl.Start()
-	sub, err := w.pub.Subscribe(w.request(c, index))
+	req := w.request(c, index)
+	// what the implementation says about its snapshot cache (an observation, not a prediction)
+	c.snapQ, c.snapVer = w.pub.VerifC11QueueLen(), w.idx
+	hit := w.pub.VerifC11CachedSnapshot(req)
+	if hit {
+		if ci, ok := w.cached[c.key.String()]; ok {
+			c.snapQ, c.snapVer = ci.q, ci.ver
+		}
+		w.tag("sub:cached-snapshot-available")
+	}
+	sub, err := w.pub.Subscribe(req)
 	if err != nil {
 		panic(err)
+	}
+	if !hit {
+		if w.pub.VerifC11CachedSnapshot(req) {
+			w.cached[c.key.String()] = snapInfo{c.snapQ, c.snapVer} // this subscription created the entry
+		} else {
+			delete(w.cached, c.key.String())
+		}
 	}
 	c.sub = sub
 	c.phase = "snap"
@@ -524,6 +556,7 @@ func (w *world) opUnsub(id int) (string, string) {
 
 func (w *world) opExpire() (string, string) {
 	n := w.pub.VerifC11ExpireCache()
+	w.cached = map[string]snapInfo{}
 	if n > 0 {
 		w.tag("expire:nonempty")
 	} else {
@@ -565,13 +598,18 @@ func (w *world) opRestore(ver uint64) (string, string) {
 		}
 	}
 	w.epoch++
-	w.gapLo, w.gapHi = ver, w.idx
+	w.gaps = append(w.gaps, gap{ver, w.idx, w.epoch})
 	for _, id := range w.order {
 		c := w.clients[id]
 		if c.sub != nil && c.mustClose == "" {
 			c.mustClose = "force"
 		}
+		// a materializer whose index is beyond the restored version reflects discarded commits
+		if c.cl.Index() > ver {
+			c.preRestore = true
+		}
 	}
+	w.cached = map[string]snapInfo{} // RefreshAllTopics evicts every cached snapshot
 	if w.pub.VerifC11QueueLen() > 0 {
 		w.tag("restore:queue-nonempty")
 	} else {
@@ -611,12 +649,16 @@ func (w *world) opNext(id int) (string, string) {
 			c.mustClose = ""
 		}
 		// M3: nothing left to read, nothing queued: the view must be the current state
-		if w.pub.VerifC11QueueLen() == 0 && c.phase == "stream" {
+		if w.pub.VerifC11QueueLen() == 0 && (c.phase == "stream" || c.phase == "resume") {
 			_, v := w.viewOf(c)
 			cur := directQuery(w.fsm.State(), c.key)
 			if v != cur.view {
 				sig := sigSkipped
-				if c.stale {
+				// the queue gap (known finding) never excuses a mismatch at quiescence: once every
+				// queued batch has been replayed the view has converged
+				if c.preRestore && !c.viaSnapshot {
+					sig = sigLocalResume
+				} else if c.stale && c.staleSig == sigPreRestore {
 					sig = c.staleSig
 				} else if a := w.attribute(c, v, cur.view); a != "" {
 					sig = a
@@ -651,7 +693,10 @@ func (w *world) opNext(id int) (string, string) {
 			// subscribe.go answers codes.Aborted; RPCMaterializer.subscribeOnce resets the view
 			c.cl.Reset()
 			c.stale = false
+			c.preRestore = false
 		}
+		// LocalMaterializer.subscribeOnce returns ErrSubForceClosed WITHOUT resetting: view and index
+		// of a discarded history survive into the next Subscribe (preRestore was set by opRestore)
 		w.tag("next:err-" + kind)
 		return op, "err:" + kind
 	}
@@ -665,7 +710,11 @@ func (w *world) opNext(id int) (string, string) {
 	}
 	pe := ev.Payload.ToSubscriptionEvent(ev.Index)
 	if herr := c.cl.Handle(pe); herr != nil {
-		panic("handler error: " + herr.Error())
+		// subscribeOnce resets the materializer and returns the error; the harness reports it
+		w.violate("stream:materializer-handler-error", fmt.Sprintf("client %d (%s): handler rejected event %d: %v; delivered %v", id, c.key, ev.Index, herr, c.seq))
+		c.phase = "bad"
+		w.tag("next:handler-error")
+		return op, "herr"
 	}
 	vidx, v := w.viewOf(c)
 	kind := "ev"
@@ -691,6 +740,7 @@ func (w *world) monitorDelivery(c *client, kind string, idx, vidx uint64, view s
 		c.phase = "snap"
 		c.viaSnapshot = true
 		c.stale = false
+		c.preRestore = false
 		return
 	case "eos":
 		if c.phase != "snap" {
@@ -729,28 +779,34 @@ func (w *world) monitorDelivery(c *client, kind string, idx, vidx uint64, view s
 	c.phase = "stream"
 	// Root-cause classification of a delivery that belongs to a commit made before the
 	// subscription started (the classification only uses what the harness did, not the model).
-	preRestore := w.epoch > 0 && c.epochAtSub == w.epoch && idx > w.gapLo && idx <= w.gapHi
-	staleQueued := c.viaSnapshot && c.qAtSub > 0 && idx <= c.verAtSub
+	preRestore := false
+	var hit gap
+	for _, g := range w.gaps {
+		if idx > g.lo && idx <= g.hi && c.epochAtSub >= g.epoch {
+			preRestore, hit = true, g
+		}
+	}
+	staleQueued := c.viaSnapshot && c.snapQ > 0 && idx <= c.snapVer
 	switch {
 	case preRestore:
 		c.stale, c.staleSig = true, sigPreRestore
-		w.violate(sigPreRestore, fmt.Sprintf("client %d (%s) subscribed after the restore to version %d received event %d of the discarded history (%d,%d]; delivered %v", id, c.key, w.gapLo, idx, w.gapLo, w.gapHi, c.seq))
+		w.violate(sigPreRestore, fmt.Sprintf("client %d (%s) subscribed after the restore to version %d received event %d of the discarded history (%d,%d]; delivered %v", id, c.key, hit.lo, idx, hit.lo, hit.hi, c.seq))
 	case staleQueued:
 		if !c.stale {
-			c.stale, c.staleSig = true, sigKnown
+			c.stale, c.staleSig, c.staleUntil = true, sigKnown, c.snapVer
 		}
 		w.tag("known:stale-delivery")
 		if idx < c.lastDelivered {
-			w.violate(sigKnown, fmt.Sprintf("client %d (%s) subscribed at version %d while %d committed batches were still queued for publication: delivered %v (index decreases)", id, c.key, c.verAtSub, c.qAtSub, c.seq))
+			w.violate(sigKnown, fmt.Sprintf("client %d (%s): its snapshot was taken at version %d while %d committed batches were still queued for publication: delivered %v (index decreases)", id, c.key, c.snapVer, c.snapQ, c.seq))
 		}
 	case idx < c.lastDelivered:
 		sig := sigDecrease
-		if c.viaSnapshot && idx <= c.verAtSub {
+		if c.viaSnapshot && idx <= c.snapVer {
 			sig = sigStaleNoQ
 		}
 		w.violate(sig, fmt.Sprintf("client %d (%s) subscribed at version %d (queue %d): delivered %v", id, c.key, c.verAtSub, c.qAtSub, c.seq))
 	}
-	if c.stale && c.staleSig == sigKnown && idx >= c.verAtSub {
+	if c.stale && c.staleSig == sigKnown && idx >= c.staleUntil {
 		c.stale = false // every queued batch has been replayed: the view must be exact from here on
 	}
 	c.lastDelivered = idx
@@ -762,7 +818,9 @@ func (w *world) monitorDelivery(c *client, kind string, idx, vidx uint64, view s
 	}
 	if !ok || want != view || vidx != idx {
 		sig := sigView
-		if c.stale {
+		if c.preRestore && !c.viaSnapshot {
+			sig = sigLocalResume
+		} else if c.stale {
 			sig = c.staleSig
 		} else if a := w.attribute(c, view, want); ok && a != "" {
 			sig = a
@@ -1099,6 +1157,191 @@ func renameOrderWitness(run *hx.Run) {
 	s.finish()
 }
 
+// localResumeWitness: two subscribers on one key; after FSM.Restore the local materializer of
+// the first one re-subscribes (index kept) while the second, force-closed but not yet
+// unsubscribed, keeps the topic buffer alive: Subscribe resumes it on the pre-restore view.
+func localResumeWitness(run *hx.Run) {
+	s := begin(run, false)
+	w := s.w
+	s.emit(w.opClient(1, keyT{"h", "web"}, "t1", false))
+	s.emit(w.opClient(2, keyT{"h", "web"}, "t1", true))
+	s.emit(w.opReg("n1", 1, &svcSpec{"s1", "web", 80, "t", ""}))
+	s.emit(w.opPub())
+	w.saveSnapshot()
+	s.emit(w.opSub(1))
+	s.emit(w.opSub(2))
+	s.emit(w.opNext(1))
+	s.emit(w.opNext(1))
+	s.emit(w.opReg("n1", 1, &svcSpec{"s1", "web", 81, "t", ""}))
+	s.emit(w.opPub())
+	s.emit(w.opNext(1))
+	s.emit(w.opRestore(2))
+	s.emit(w.opNext(1))
+	s.emit(w.opUnsub(1))
+	s.emit(w.opSub(1))
+	s.emit(w.opNext(1))
+	s.expect(sigLocalResume, "restore, local materializer re-subscribes while another closed subscription keeps the buffer: resumed on the old view?")
+	s.finish()
+}
+
+// corpus: deterministic schedules that pin one branch each (they run first on every tier)
+func corpus(run *hx.Run) {
+	web := func(port int) *svcSpec { return &svcSpec{"s1", "web", port, "t", ""} }
+	drain := func(s *sched, id int) {
+		for i := 0; i < 8; i++ {
+			op, out := s.w.opNext(id)
+			s.emit(op, out)
+			if out == "block" || strings.HasPrefix(out, "err") {
+				return
+			}
+		}
+	}
+	// a disconnected client misses a commit: the re-subscription must NOT be resumed
+	{
+		s := begin(run, false)
+		w := s.w
+		s.emit(w.opClient(1, keyT{"h", "web"}, "t1", false))
+		s.emit(w.opClient(2, keyT{"h", "web"}, "t2", true))
+		s.emit(w.opReg("n1", 1, web(80)))
+		s.emit(w.opPub())
+		s.emit(w.opSub(1))
+		s.emit(w.opSub(2))
+		drain(s, 1)
+		s.emit(w.opUnsub(1))
+		s.emit(w.opReg("n1", 1, web(81)))
+		s.emit(w.opPub())
+		s.emit(w.opReg("n2", 1, &svcSpec{"s2", "api", 80, "t", ""}))
+		s.emit(w.opPub())
+		s.emit(w.opSub(1))
+		drain(s, 1)
+		drain(s, 2)
+		s.finish()
+	}
+	// a disconnected client misses nothing: resumed, and later events still arrive
+	{
+		s := begin(run, true)
+		w := s.w
+		s.emit(w.opClient(1, keyT{"h", "web"}, "t1", true))
+		s.emit(w.opClient(2, keyT{"h", "web"}, "t2", false))
+		s.emit(w.opReg("n1", 1, web(80)))
+		s.emit(w.opPub())
+		s.emit(w.opSub(1))
+		s.emit(w.opSub(2))
+		s.emit(w.opReg("n1", 1, web(81)))
+		s.emit(w.opPub())
+		drain(s, 1)
+		s.emit(w.opUnsub(1))
+		s.emit(w.opKV())
+		s.emit(w.opPub())
+		s.emit(w.opSub(1))
+		s.emit(w.opReg("n1", 1, web(82)))
+		s.emit(w.opPub())
+		drain(s, 1)
+		drain(s, 2)
+		s.finish()
+	}
+	// cached snapshot shared by two subscribers, then expired
+	{
+		s := begin(run, true)
+		w := s.w
+		s.emit(w.opClient(1, keyT{"c", "web"}, "t1", true))
+		s.emit(w.opClient(2, keyT{"c", "web"}, "t1", true))
+		s.emit(w.opClient(3, keyT{"c", "web"}, "t1", true))
+		s.emit(w.opReg("n1", 1, &svcSpec{"s1", "web", 80, "n", ""}))
+		s.emit(w.opPub())
+		s.emit(w.opSub(1))
+		s.emit(w.opReg("n1", 1, &svcSpec{"s2", "api", 80, "p", "web"}))
+		s.emit(w.opPub())
+		s.emit(w.opSub(2))
+		s.emit(w.opExpire())
+		s.emit(w.opSub(3))
+		drain(s, 1)
+		drain(s, 2)
+		drain(s, 3)
+		s.finish()
+	}
+	// ACL token write closes exactly the subscriptions of that token
+	{
+		s := begin(run, false)
+		w := s.w
+		s.emit(w.opClient(1, keyT{"g", "*"}, "t1", true))
+		s.emit(w.opClient(2, keyT{"g", "web"}, "t2", false))
+		s.emit(w.opCfg("web", 1))
+		s.emit(w.opPub())
+		s.emit(w.opSub(1))
+		s.emit(w.opSub(2))
+		drain(s, 1)
+		drain(s, 2)
+		s.emit(w.opTok("t1"))
+		s.emit(w.opCfg("api", 2))
+		s.emit(w.opPub())
+		s.emit(w.opPub())
+		drain(s, 1)
+		drain(s, 2)
+		s.emit(w.opUnsub(1))
+		s.emit(w.opSub(1))
+		drain(s, 1)
+		s.emit(w.opCfgDel("web"))
+		s.emit(w.opPub())
+		drain(s, 1)
+		drain(s, 2)
+		s.finish()
+	}
+}
+
+// exhaustive enumerates EVERY schedule of exactly `depth` actions over a small alphabet after a
+// fixed prefix (one published registration, two subscribers declared): validation of the tie on a
+// complete small scope, not the claim itself.
+func exhaustive(run *hx.Run, depth int) int {
+	const alphabet = 7
+	seq := make([]int, depth)
+	count := 0
+	for {
+		s := begin(run, true)
+		w := s.w
+		s.emit(w.opClient(1, keyT{"h", "web"}, "t1", false))
+		s.emit(w.opClient(2, keyT{"h", "web"}, "t1", true))
+		s.emit(w.opReg("n1", 1, &svcSpec{"s1", "web", 80, "t", ""}))
+		s.emit(w.opPub())
+		port := 80
+		for _, a := range seq {
+			switch a {
+			case 0:
+				port++
+				s.emit(w.opReg("n1", 1, &svcSpec{"s1", "web", port, "t", ""}))
+			case 1:
+				s.emit(w.opReg("n2", 1, &svcSpec{"s2", "web", 80, "n", ""}))
+			case 2:
+				s.emit(w.opPub())
+			case 3:
+				s.emit(w.opSub(1))
+			case 4:
+				s.emit(w.opNext(1))
+			case 5:
+				s.emit(w.opUnsub(1))
+			case 6:
+				s.emit(w.opSub(2))
+			}
+		}
+		s.finish()
+		count++
+		i := depth - 1
+		for i >= 0 {
+			seq[i]++
+			if seq[i] < alphabet {
+				break
+			}
+			seq[i] = 0
+			i--
+		}
+		if i < 0 {
+			break
+		}
+	}
+	run.Tag(fmt.Sprintf("exhaustive:depth-%d", depth))
+	return count
+}
+
 func main() {
 	run := hx.Start()
 	run.Rule = "schedules over {client, commit(reg|dereg|cfg|cfgdel|tok|kv), pub (drain one queued batch), sub, next, unsub, expire, restore}; nontrivial = at least one event or snapshot delivered"
@@ -1106,6 +1349,14 @@ func main() {
 	preRestoreWitness(run)
 	connectLeakWitness(run)
 	renameOrderWitness(run)
+	localResumeWitness(run)
+	corpus(run)
+	depth := run.Scale(3, 4)
+	if run.Thorough() && run.Seed%2 == 1 {
+		depth = 5 // the enumeration does not depend on the seed: the deepest one runs once per check
+	}
+	run.Extra["exhaustive_schedules"] = exhaustive(run, depth)
+	run.Extra["exhaustive"] = true
 	n := run.Scale(400, 4000)
 	for i := 0; i < n; i++ {
 		r := run.RNG.Fork(uint64(i))
